@@ -64,6 +64,11 @@ func genIndexProgram(t *rapid.T, seg uint64) pgen.Prog {
 		}
 		m.Initial = idxInit + rapid.SampledFrom([]uint64{0, 0, 1, 3, seg - 1, seg + 1, 2 * seg}).Draw(t, "fltinit")
 		m.Filter = &gdsl.Filter{Module: "index_0", Query: rapid.SampledFrom(c15Queries).Draw(t, "query")}
+		if m.Kind == "map" && rapid.IntRange(0, 2).Draw(t, "queryfromparams") == 0 {
+			// the query comes from the module's params (several such modules may share the index with different values)
+			m.Inputs = append([]gdsl.In{{T: "params", Value: m.Filter.Query}}, m.Inputs...)
+			m.Filter = &gdsl.Filter{Module: "index_0", FromParams: true}
+		}
 		if m.Initial < lowest {
 			lowest = m.Initial
 		}
@@ -170,9 +175,13 @@ func checkC15E2E(c c15Case) (*ev.Failure, c15Stats) {
 		if !strings.HasPrefix(m.Name, "flt_") {
 			continue
 		}
-		expr, err := sqe.Parse(context.Background(), m.Filter.Query)
+		query := m.Filter.Query
+		if m.Filter.FromParams && len(m.Inputs) > 0 {
+			query = m.Inputs[0].Value
+		}
+		expr, err := sqe.Parse(context.Background(), query)
 		if err != nil {
-			return ev.Failf("parse/reject-valid", "filter %q rejected: %v", m.Filter.Query, err), st
+			return ev.Failf("parse/reject-valid", "filter %q rejected: %v", query, err), st
 		}
 		for _, d := range D.res.DataMessages() {
 			if d.Num < m.Initial {
@@ -186,10 +195,10 @@ func checkC15E2E(c c15Case) (*ev.Failure, c15Stats) {
 				st.skipped++
 			}
 			if want && !got {
-				return ev.Failf("linear/skipped-on-matching-block", "module %s (filter %q) did not run on block %d whose keys %q match", m.Name, m.Filter.Query, d.Num, keysAt[d.Num]), st
+				return ev.Failf("linear/skipped-on-matching-block", "module %s (filter %q) did not run on block %d whose keys %q match", m.Name, query, d.Num, keysAt[d.Num]), st
 			}
 			if !want && got {
-				return ev.Failf("linear/ran-on-rejected-block", "module %s (filter %q) ran on block %d whose keys %q do not match", m.Name, m.Filter.Query, d.Num, keysAt[d.Num]), st
+				return ev.Failf("linear/ran-on-rejected-block", "module %s (filter %q) ran on block %d whose keys %q do not match", m.Name, query, d.Num, keysAt[d.Num]), st
 			}
 		}
 	}
@@ -315,7 +324,7 @@ func subsetOf(files []string, keep []int) []string {
 
 func TestC15Index(t *testing.T) {
 	r := ev.Get("C15", "IndexFiles")
-	r.Rule = "rapid: programs with one block-index module (reading the block, or a mapper that skips outputs) and 2..4 filtered modules sharing it (single-key bare/quoted/parenthesised filters and and/or combinations, different initial blocks, optionally a filtered store) feeding one output mapper; a production request over 1..3 back-filled segments run (1) on an empty cache (index being built by the jobs), (2) on a cache holding only the index files of (1), (3) on a subset of them, (4) with only the outputs of the mapper the index reads (in half of those programs nothing else reads the chain, so the jobs build the index without the block source), (5) on the index files built in (4), each compared with the sequential dev-mode execution, in which every filtered module must have run exactly on the blocks whose own keys satisfy its filter; non-trivial = at least one block skipped and one not skipped, and index files existed"
+	r.Rule = "rapid: programs with one block-index module (reading the block, or a mapper that skips outputs) and 2..4 filtered modules sharing it (single-key bare/quoted/parenthesised filters and and/or combinations, one filter in three taken from the module's params, different initial blocks, optionally a filtered store) feeding one output mapper; a production request over 1..3 back-filled segments run (1) on an empty cache (index being built by the jobs), (2) on a cache holding only the index files of (1), (3) on a subset of them, (4) with only the outputs of the mapper the index reads (in half of those programs nothing else reads the chain, so the jobs build the index without the block source), (5) on the index files built in (4), each compared with the sequential dev-mode execution, in which every filtered module must have run exactly on the blocks whose own keys satisfy its filter; non-trivial = at least one block skipped and one not skipped, and index files existed"
 	rapid.Check(t, func(rt *rapid.T) {
 		c := genC15E2E(rt)
 		r.Begin(c)
